@@ -179,7 +179,7 @@ fn serde_accepts<D: Digest>(s: &str) -> bool {
 
 fn checksum_grammar(rep: &mut Reporter) -> (u64, u64) {
     // (1) 2-byte digest "t": all strings of length <= 7
-    let alpha = ['t', ':', 'a', 'F', '0', 'g', ' ', '\n'];
+    let alpha = ['t', ':', 'a', 'F', '0', 'g', ' ', '\n', '+'];
     let mut total = 0u64;
     let mut accepted = 0u64;
     let mut strings: Vec<String> = vec![String::new()];
@@ -222,7 +222,7 @@ fn checksum_grammar(rep: &mut Reporter) -> (u64, u64) {
                     let base: String = "a".repeat(len);
                     let mut variants = vec![base.clone()];
                     for pos in 0..len {
-                        for c in ['F', '0', 'g', ' ', ':'] {
+                        for c in ['F', '0', 'g', ' ', ':', '+', '-'] {
                             let mut b: Vec<char> = base.chars().collect();
                             b[pos] = c;
                             variants.push(b.into_iter().collect());
@@ -230,6 +230,11 @@ fn checksum_grammar(rep: &mut Reporter) -> (u64, u64) {
                     }
                     // decorations around an otherwise untouched string: leading/trailing white space
                     let plain = format!("{prefix}{sep}{base}");
+                    // a sign in front of every byte pair (number parsers accept it, hex does not)
+                    if len % 2 == 0 && len > 0 {
+                        variants.push("+a".repeat(len / 2));
+                        variants.push("-a".repeat(len / 2));
+                    }
                     let mut all: Vec<String> = variants.into_iter().map(|body| format!("{prefix}{sep}{body}")).collect();
                     for ws in [" ", "\n", "\t", "\r\n", "\u{a0}"] {
                         all.push(format!("{plain}{ws}"));
@@ -362,7 +367,7 @@ pub fn run(args: &Args) {
     rep.cov("toml_roundtrips", rt);
     let nontrivial = seq_total.iter().filter(|s| s.iter().filter(|k| k.class == 0).count() >= 2).count() as u64 + seq_partial.iter().filter(|s| s.iter().filter(|k| k.class == 0).count() >= 2).count() as u64;
     rep.cov("distinct_nontrivial", nontrivial);
-    rep.cov("rule", "all sequences (order matters) of <= L artifacts over {matching, wrong os, wrong arch} x versions x tagged, pushed through the real Inventory::push; for each, every requirement (subset of the version domain x metadata predicate) through resolve (total order 1<2<3), partial_resolve on the same, and partial_resolve on the 4-element diamond partial order extended by an isolated element and a NaN-like element (partial_cmp None even against itself); non-trivial = inventories with >= 2 os/arch-matching artifacts. Checksums: all strings of length <= 7 over {t : a F 0 g space LF} for a 2-byte digest 't', and prefix x separator x length x single-position replacement grids (plus leading/trailing white space) around 64/128 for Sha256/Sha512, each through BOTH acceptance paths (FromStr and serde deserialisation from a TOML document). TOML: inventories of <= 2 artifacts over payload urls x versions x os x arch x metadata");
+    rep.cov("rule", "all sequences (order matters) of <= L artifacts over {matching, wrong os, wrong arch} x versions x tagged, pushed through the real Inventory::push; for each, every requirement (subset of the version domain x metadata predicate) through resolve (total order 1<2<3), partial_resolve on the same, and partial_resolve on the 4-element diamond partial order extended by an isolated element and a NaN-like element (partial_cmp None even against itself); non-trivial = inventories with >= 2 os/arch-matching artifacts. Checksums: all strings of length <= 7 over {t : a F 0 g space LF +} for a 2-byte digest 't', and prefix x separator x length x single-position replacement grids (plus leading/trailing white space) around 64/128 for Sha256/Sha512, each through BOTH acceptance paths (FromStr and serde deserialisation from a TOML document). TOML: inventories of <= 2 artifacts over payload urls x versions x os x arch x metadata");
     rep.cov("bound", json!({"max_inventory_len_total": max_len, "max_inventory_len_partial": if args.thorough() {4} else {3}, "artifact_kinds_total": k_total.len(), "artifact_kinds_partial": k_partial.len()}));
     rep.cov("exhaustive", true);
     rep.sample(json!({"inventory": seq_total[seq_total.len() - 1], "queries": "all 8 version subsets x 2 metadata predicates"}));
